@@ -255,6 +255,34 @@ class Ctx:
         self.cov.setdefault("inductive_runs", []).append(info)
         return info
 
+    def apalache_step_must_fail(self, spec, deps, cinit, ind_init, inv, module, old, new, timeout=900, label=None):
+        """Sensitivity of the inductive step: a copy of the modules with one textual mutation
+        (`old` -> `new` in `module`) must make the step obligation fail; otherwise the
+        inductive argument is vacuous or too weak to notice that design change (tool error)."""
+        spec_dir = os.path.dirname(os.path.join(SPECS, spec))
+        tmp = self.path("apalache_mut_%d" % (int(time.time() * 1000) % 100000))
+        os.makedirs(tmp)
+        for m in deps:
+            shutil.copy(os.path.join(spec_dir, m + ".tla"), tmp)
+        mp = os.path.join(tmp, module + ".tla")
+        text = open(mp).read()
+        if text.count(old) != 1:
+            raise ToolError("mutation anchor not found exactly once in %s" % module)
+        open(mp, "w").write(text.replace(old, new))
+        cmd = ["apalache-mc", "check", "--out-dir=" + os.path.join(tmp, "out"), "--cinit=" + cinit, "--init=" + ind_init,
+               "--inv=" + inv, "--length=1", os.path.basename(spec) + ".tla"]
+        t = time.time()
+        rc, out = self.run(cmd, cwd=tmp, timeout=timeout)
+        dt = time.time() - t
+        shutil.rmtree(tmp, ignore_errors=True)
+        found = rc == 12 and "The outcome is: Error" in out
+        self.log("Apalache %s step with mutation (%s): counterexample found=%s, %.1fs" % (spec, label or new, found, dt))
+        self.cov.setdefault("inductive_runs", []).append(
+            {"spec": spec, "invariant": inv, "mutation": label or ("%s -> %s" % (old, new)), "step_fails_as_expected": found, "wall_s": round(dt, 1)})
+        if not found:
+            sys.stdout.write(out[-3000:])
+            raise ToolError("mutated %s still passes the inductive step of %s: the argument does not see this change" % (module, inv))
+
     def tlc_generate(self, spec, cfg, outfile, workers=4, timeout=1200, env=None, extra=None, tag="REPLAY", heap="8g"):
         """Run TLC as a behaviour generator: collect <<"REPLAY", "<json>">> lines."""
         rc, out, dt = self._tlc(spec, cfg, workers, timeout, env=env, extra=extra, heap=heap)
